@@ -522,7 +522,7 @@ def _dispatch(item):
     return accept_item(item)
 
 
-SYNTH_STREAMS = ('synirr', 'synoff', 'synnot', 'synenc', 'synwild', 'synnum', 'synmk', 'syndef', 'syntrk')
+SYNTH_STREAMS = ('synirr', 'synoff', 'synnot', 'synenc', 'synwild', 'synnum', 'synmk', 'syndef', 'syntrk', 'synzero')
 
 
 def vectors(tier):
